@@ -308,8 +308,13 @@ func (i *Interface) Put(r record.Record) (err error) {
 	}
 
 	r.Lock()
-	defer r.Unlock()
-	return db.Put(r)
+	err = db.Put(r)
+	r.Unlock()
+	if err != nil && i.cache != nil {
+		// The record was not stored: the cache must not answer with it.
+		i.cache.Remove(r.Key())
+	}
+	return err
 }
 
 // PutNew saves a record to the database as a new record (ie. with new timestamps).
@@ -358,8 +363,13 @@ func (i *Interface) PutNew(r record.Record) (err error) {
 	}
 
 	r.Lock()
-	defer r.Unlock()
-	return db.Put(r)
+	err = db.Put(r)
+	r.Unlock()
+	if err != nil && i.cache != nil {
+		// The record was not stored: the cache must not answer with it.
+		i.cache.Remove(r.Key())
+	}
+	return err
 }
 
 // PutMany stores many records in the database.
